@@ -124,37 +124,36 @@ def build_mesh_data(lib, elem, cells, with_points=True, extra_nodes=()):
     """`cells`: list of vertex-coordinate lists (vertices in the reference order of the LINEAR cell of the topology, positively
     oriented).  Nodes of the element type `elem` are placed through the vertex map at the type's own local coordinates (read
     from the repository's Get_Local_Coords table, which C06 ties to the shape functions); boundary facets (facets met once)
-    become elements of the matching boundary type, oriented outwards (3-D) / with the interior on their left (2-D)."""
+    become elements of the matching boundary type, oriented outwards (3-D) / with the interior on their left (2-D).
+    `elem` may also be a list [(elem, cells), ...]: a mesh with several element groups of the main dimension."""
+    parts = elem if isinstance(elem, list) else [(elem, cells)]
     md = MeshData()
-    topo = topo_of(elem)
-    T = TOPO[topo]
-    md.dim = T["dim"]
-    ed = lib.get(elem)
+    md.dim = TOPO[topo_of(parts[0][0])]["dim"]
     pad = lambda v: tuple(list(v) + [Q(0)] * (3 - len(v)))
-    cells = [[pad(v) for v in c] for c in cells]
+    parts = [(e, [[pad(v) for v in c] for c in cs]) for e, cs in parts]
     # vertices first (so that vertex numbers are the smallest, as gmsh does), then the other nodes
-    for c in cells:
-        for v in c:
-            md.node(v)
-    rows = []
-    for c in cells:
-        rows.append([md.node(vmap(topo, c, xi)) for xi in ed.coords])
-    md.groups[elem] = rows
-    # boundary facets
+    for e, cs in parts:
+        for c in cs:
+            for v in c:
+                md.node(v)
+    for e, cs in parts:
+        topo = topo_of(e)
+        ed = lib.get(e)
+        md.groups[e] = [[md.node(vmap(topo, c, xi)) for xi in ed.coords] for c in cs]
+    # boundary facets: met once over ALL the cells
     seen = {}
-    for ci, c in enumerate(cells):
-        for f in T["facets"]:
-            key = frozenset(c[i] for i in f)
-            seen.setdefault(key, []).append((ci, f))
-    btypes = BOUNDARY_TYPE[elem]
+    for e, cs in parts:
+        for c in cs:
+            for f in TOPO[topo_of(e)]["facets"]:
+                key = frozenset(c[i] for i in f)
+                seen.setdefault(key, []).append((e, c, f))
     centroid = lambda pts: tuple(sum(p[k] for p in pts) / len(pts) for k in range(3))
     for key, owners in seen.items():
         if len(owners) != 1:
             continue
-        ci, f = owners[0]
-        c = cells[ci]
+        e, c, f = owners[0]
         fv = [c[i] for i in f]
-        bname = btypes[len(f)]
+        bname = BOUNDARY_TYPE[e][len(f)]
         if md.dim == 3:
             n = _cross(_sub(fv[1], fv[0]), _sub(fv[2], fv[0]))
             if _dot(n, _sub(centroid(fv), centroid(c))) < 0:
@@ -175,7 +174,7 @@ def build_mesh_data(lib, elem, cells, with_points=True, extra_nodes=()):
         for xi in bd.coords:
             x = vmap(btopo, fv, xi)
             if x not in md.index:
-                raise AnalysisError(f"boundary node of {bname} at {x} is not a node of the {elem} mesh")
+                raise AnalysisError(f"boundary node of {bname} at {x} is not a node of the mesh")
             row.append(md.index[x])
         md.groups.setdefault(bname, []).append(row)
     for x in extra_nodes:
@@ -188,7 +187,7 @@ def build_mesh_data(lib, elem, cells, with_points=True, extra_nodes=()):
                 a, b = list(key)
                 inc.setdefault(a, []).append(_sub(b, a))
                 inc.setdefault(b, []).append(_sub(a, b))
-        pts = [v for v, ds in inc.items() if len(ds) == 2 and any(c != 0 for c in _cross(ds[0], ds[1]))]
+        pts = [v for v, ds in inc.items() if len(ds) == 2 and any(cc != 0 for cc in _cross(ds[0], ds[1]))]
         if pts:
             md.groups["POINT"] = [[md.index[v]] for v in sorted(pts)]
     return md
